@@ -60,6 +60,8 @@ func init() {
 
 const c13Reps = 20
 
+var c13ES6 = soyjs.Options{Formatter: soyjs.ES6Formatter{}}
+
 // ---------- cases ----------
 
 type c13Global struct {
